@@ -20,14 +20,17 @@ Inductive out := Refused | Accepted | Nothing.
 
 Record st := mk { nconn : nat; closed : list nat; cl_down : bool; sess_down : bool; cc_down : bool; sched_down : bool;
                   pool : nat -> option (option nat * bool); cc_conn : option nat;
-                  queue : list task; timers : list timer; nh : nat }.
+                  queue : list task; timers : list timer; nh : nat;
+                  attempts : nat (* connection attempts started so far *) }.
 
-Definition set_nconn s v := mk v (closed s) (cl_down s) (sess_down s) (cc_down s) (sched_down s) (pool s) (cc_conn s) (queue s) (timers s) (nh s).
-Definition set_closed s v := mk (nconn s) v (cl_down s) (sess_down s) (cc_down s) (sched_down s) (pool s) (cc_conn s) (queue s) (timers s) (nh s).
-Definition set_pool s v := mk (nconn s) (closed s) (cl_down s) (sess_down s) (cc_down s) (sched_down s) v (cc_conn s) (queue s) (timers s) (nh s).
-Definition set_cc s v := mk (nconn s) (closed s) (cl_down s) (sess_down s) (cc_down s) (sched_down s) (pool s) v (queue s) (timers s) (nh s).
-Definition set_queue s v := mk (nconn s) (closed s) (cl_down s) (sess_down s) (cc_down s) (sched_down s) (pool s) (cc_conn s) v (timers s) (nh s).
-Definition set_timers s v := mk (nconn s) (closed s) (cl_down s) (sess_down s) (cc_down s) (sched_down s) (pool s) (cc_conn s) (queue s) v (nh s).
+Definition set_nconn s v := mk v (closed s) (cl_down s) (sess_down s) (cc_down s) (sched_down s) (pool s) (cc_conn s) (queue s) (timers s) (nh s) (attempts s).
+Definition set_closed s v := mk (nconn s) v (cl_down s) (sess_down s) (cc_down s) (sched_down s) (pool s) (cc_conn s) (queue s) (timers s) (nh s) (attempts s).
+Definition set_pool s v := mk (nconn s) (closed s) (cl_down s) (sess_down s) (cc_down s) (sched_down s) v (cc_conn s) (queue s) (timers s) (nh s) (attempts s).
+Definition set_cc s v := mk (nconn s) (closed s) (cl_down s) (sess_down s) (cc_down s) (sched_down s) (pool s) v (queue s) (timers s) (nh s) (attempts s).
+Definition set_queue s v := mk (nconn s) (closed s) (cl_down s) (sess_down s) (cc_down s) (sched_down s) (pool s) (cc_conn s) v (timers s) (nh s) (attempts s).
+Definition set_timers s v := mk (nconn s) (closed s) (cl_down s) (sess_down s) (cc_down s) (sched_down s) (pool s) (cc_conn s) (queue s) v (nh s) (attempts s).
+Definition set_attempts s v := mk (nconn s) (closed s) (cl_down s) (sess_down s) (cc_down s) (sched_down s) (pool s) (cc_conn s) (queue s) (timers s) (nh s) v.
+Definition att (s : st) (n : nat) : st := set_attempts s (attempts s + n).
 
 Definition close (s : st) (c : nat) : st := set_closed s (c :: closed s).
 Definition close_opt (s : st) (o : option nat) : st := match o with Some c => close s c | None => s end.
@@ -44,24 +47,24 @@ Definition session_shutdown (s : st) : st :=
   if sess_down s then s else
   let conns := flat_map (fun h => match pool_conn (pool s h) with Some c => [c] | None => [] end) (seq 0 (nh s)) in
   mk (nconn s) (conns ++ closed s) (cl_down s) true (cc_down s) (sched_down s) (fun h => shut_pool (pool s h)) (cc_conn s)
-     (queue s) (timers s) (nh s).
+     (queue s) (timers s) (nh s) (attempts s).
 
 (* ControlConnection.shutdown *)
 Definition cc_shutdown (s : st) : st :=
   let s := set_timers s (map (fun t => match t with TCtl _ => TCtl false | t => t end) (timers s)) in
   if cc_down s then s else
   let s := close_opt s (cc_conn s) in
-  mk (nconn s) (closed s) (cl_down s) (sess_down s) true (sched_down s) (pool s) None (queue s) (timers s) (nh s).
+  mk (nconn s) (closed s) (cl_down s) (sess_down s) true (sched_down s) (pool s) None (queue s) (timers s) (nh s) (attempts s).
 
 (* Cluster.shutdown: scheduler.shutdown, control_connection.shutdown, every session.shutdown, executor.shutdown *)
 Definition cluster_shutdown (s : st) : st :=
   if cl_down s then s else
-  let s := mk (nconn s) (closed s) true (sess_down s) (cc_down s) true (pool s) (cc_conn s) (queue s) (timers s) (nh s) in
+  let s := mk (nconn s) (closed s) true (sess_down s) (cc_down s) true (pool s) (cc_conn s) (queue s) (timers s) (nh s) (attempts s) in
   session_shutdown (cc_shutdown s).
 
 Definition connect (s : st) (during : bool) : st * nat :=
   let c := nconn s in
-  let s := set_nconn s (S c) in
+  let s := att (set_nconn s (S c)) 1 in
   (if during then cluster_shutdown s else s, c).
 
 Fixpoint remove_nth {A} (k : nat) (l : list A) : list A :=
@@ -82,7 +85,7 @@ Definition run_task (s : st) (t : task) (o : oc) (during : bool) : st :=
       | Some (Some c0', false) =>
           if c0' =? c0 then
             match o with
-            | Err => if sess_down s then s else set_queue s (queue s ++ [KReplace h c0])
+            | Err => let s := att s 1 in if sess_down s then s else set_queue s (queue s ++ [KReplace h c0])
             | Ok => let '(s, c) := connect s during in
                     match pool s h with
                     | Some (Some _, false) =>                       (* self._connection = conn; old connection closed *)
@@ -95,7 +98,10 @@ Definition run_task (s : st) (t : task) (o : oc) (during : bool) : st :=
       end
   | KCCReconnect =>
       match o with
-      | Err => if cc_down s then s else
+      | Err => (* _reconnect_internal walks the query plan; after a failed attempt it stops as soon as _is_shutdown *)
+               if during then cluster_shutdown (att s 1) else
+               if cc_down s then att s 1 else
+               let s := att s (nh s) in
                if sched_down s then set_timers s (map (fun t => match t with TCtl _ => TCtl false | t => t end) (timers s))
                else set_timers s (map (fun t => match t with TCtl _ => TCtl false | t => t end) (timers s) ++ [TCtl true])
       | Ok => let '(s, c) := connect s during in
@@ -110,7 +116,7 @@ Definition fire (s : st) (t : timer) (o : oc) (during : bool) : st :=
       if negb live then s else
       match o with
       | Ok => let '(s, c) := connect s during in close s c                 (* run(): finally conn.close() *)
-      | Err => if sched_down s then s else set_timers s (timers s ++ [TRecon h true])
+      | Err => let s := att s 1 in if sched_down s then s else set_timers s (timers s ++ [TRecon h true])
       end
   | TCtl live =>
       if negb live then s else
@@ -118,7 +124,8 @@ Definition fire (s : st) (t : timer) (o : oc) (during : bool) : st :=
       | Ok => let '(s, c) := connect s during in
               if cc_down s then close s c
               else close (set_cc (close_opt s (cc_conn s)) (Some c)) c    (* on_reconnection, then finally conn.close() *)
-      | Err => if sched_down s then s else set_timers s (timers s ++ [TCtl true])
+      | Err => if during then cluster_shutdown (att s 1) else
+               let s := att s (nh s) in if sched_down s then s else set_timers s (timers s ++ [TCtl true])
       end
   end.
 
@@ -153,7 +160,7 @@ Definition run (s : st) (os : list op) : st := fold_left (fun s o => fst (step s
 
 (* after Cluster.connect(): control connection = connection 0, one pool (connection h+1) per host *)
 Definition init (n : nat) : st :=
-  mk (S n) [] false false false false (fun h => if h <? n then Some (Some (S h), false) else None) (Some 0) [] [] n.
+  mk (S n) [] false false false false (fun h => if h <? n then Some (Some (S h), false) else None) (Some 0) [] [] n 0.
 
 (* ---------------------------------------------------------------- observation *)
 Local Open Scope Z_scope.
@@ -164,7 +171,7 @@ Definition obs_task (t : task) : Z :=
 Definition obs_timer (t : timer) : Z := match t with TRecon h _ => 10 + zn h | TCtl _ => 20 end.
 Definition obs_out (o : out) : Z := match o with Refused => 0 | Accepted => 1 | Nothing => 2 end.
 Definition obs (s : st) (o : out) : list Z :=
-  [zn (nconn s); Z.b2z (cl_down s); Z.b2z (sess_down s); Z.b2z (cc_down s); Z.b2z (sched_down s); zo (cc_conn s); -1]
+  [zn (nconn s); zn (attempts s); Z.b2z (cl_down s); Z.b2z (sess_down s); Z.b2z (cc_down s); Z.b2z (sched_down s); zo (cc_conn s); -1]
   ++ map zn (filter (fun c => existsb (Nat.eqb c) (closed s)) (seq 0 (nconn s))) ++ [-2]
   ++ flat_map (fun h => match pool s h with None => [-9] | Some (c, b) => [zo c; Z.b2z b] end) (seq 0 (nh s)) ++ [-3]
   ++ map obs_task (queue s) ++ [-4] ++ map obs_timer (timers s) ++ [-5; obs_out o].
